@@ -583,13 +583,13 @@ def fastRleLoop : Nat → List Nat → Writer → Out Writer
       fastRleLoop prev (rest.drop (runLen v rest)) w
     else do
       let reps := 1 + runLen v rest
-      let w ← if prev ≠ v then writeClRepeat v 1 w else .ok w
+      let w ← (if prev ≠ v then writeClRepeat v 1 w else Out.ok w)
       let reps := if prev ≠ v then reps - 1 else reps
-      let w ← if reps < 3 then writeClRepeat v reps w
+      let w ← (if reps < 3 then writeClRepeat v reps w
         else do
           let nb ← getAt kNonZeroRepsDepth (reps - 3)
           let bt ← getAt kNonZeroRepsBits (reps - 3)
-          writeBits (nb % 256) bt w
+          writeBits (nb % 256) bt w)
       fastRleLoop v (rest.drop (runLen v rest)) w
 termination_by _ l _ => l.length
 decreasing_by all_goals (simp; omega)
